@@ -137,7 +137,8 @@ def ops_for(ty):
     add('is_nan', 'P', 'bool', f'{T}::is_nan(x)', f'crate.{m}.{T}.is_nan x', b(f'a == Spec.nar {F}'), 'C10')
     add('is_finite', 'P', 'bool', f'{T}::is_finite(x)', f'crate.{m}.{T}.is_finite x', b(f'a != Spec.nar {F}'), 'C10')
     add('is_infinite', 'P', 'bool', f'{T}::is_infinite(x)', f'crate.{m}.{T}.is_infinite x', b(f'a == Spec.nar {F}'), 'C10')
-    add('is_normal', 'P', 'bool', f'{T}::is_normal(x)', f'crate.{m}.{T}.is_normal x', b(f'a != Spec.nar {F} && a != 0'), 'C10')
+    # is_normal is not among the operations C10 names (the crate defines it as !is_nar): model-vs-impl only
+    add('is_normal', 'P', 'bool', f'{T}::is_normal(x)', f'crate.{m}.{T}.is_normal x', None, 'C10')
     add('recip', 'P', 'P', 'x.recip()', f'crate.{m}.{T}.recip x', f'some (Spec.div {F} (Spec.one {F}) a)', 'C01')
     # ---- C17 num_traits spellings (model = same inherent op)
     for o in ('abs', 'signum'):
